@@ -118,7 +118,14 @@ def judge(ctx, res, stream):
                 else:
                     ok = True
                 if not ok and p in r['S_A']:
-                    ok = True        # already owed under the stricter setting: C01's business
+                    # the definition owes the peptide under the STRICTER setting already, yet it only
+                    # shows after the relaxation: tolerated only where an open completeness finding of
+                    # C01 explains the stricter run (cleavage exception in force, a record nested in a
+                    # splicing insertion); otherwise the relaxation "added" something it cannot own
+                    from .cv_explore import resolve_exc
+                    ok = resolve_exc(kw) is not None or cv_checks.has_nested(r)
+                    if not ok:
+                        ctx.count(stream, 'added_within_stricter_limit')
                 if not ok:
                     bad.append((p, ents))
             if bad:
@@ -189,7 +196,7 @@ def run(ctx: common.Ctx):
         'difference')
     base = dict(vary=True, per_tx=(2, 7), max_size=6, window=24, witness=False, exception=None,
                 as_frac=0.3)
-    res = cv_checks.explore(ctx, ctx.n(170, 3000),
+    res = cv_checks.explore(ctx, ctx.n(130, 3000),
                             dict(base, variations=['misc', 'minlen', 'maxlen', 'minmw', 'sect', 'w2f', 'addvar', 'cno']))
     s1 = dict(ctx.coverage['worker_stats'])
     judge(ctx, res, 'config-pairs')
@@ -197,7 +204,7 @@ def run(ctx: common.Ctx):
                             dict(base, exception='auto', variations=['misc', 'addvar']))
     judge(ctx, res, 'config-pairs-exc')
     s2 = dict(ctx.coverage['worker_stats'])
-    res = cv_checks.explore(ctx, ctx.n(260, 4000),
+    res = cv_checks.explore(ctx, ctx.n(200, 4000),
                             dict(base, per_tx=(1, 4), special=['sec', 'sec', 'start', 'stop', 'junction'], sec_near_start=0.6, coding_only=True,
                                  kw={'selenocysteine_termination': False},
                                  variations=['sect', 'addvar']))
@@ -205,12 +212,22 @@ def run(ctx: common.Ctx):
     s2b = dict(ctx.coverage['worker_stats'])
     # Sec termination switched on for selenoproteins whose Sec sits a few codons behind the
     # start codon (planted, with a cleavage site between them) and records clustered around it
-    res = cv_checks.explore(ctx, ctx.n(260, 4000),
+    res = cv_checks.explore(ctx, ctx.n(200, 4000),
                             dict(base, per_tx=(1, 4), as_frac=0.0, special=['sec'], sec_near_start=1.0,
                                  coding_only=True, kw={'selenocysteine_termination': False},
                                  variations=['sect']))
     judge(ctx, res, 'sec-near-start')
     s2c = dict(ctx.coverage['worker_stats'])
+    # the same selenoproteins with Sec termination ON in both runs and a SMALL maximum length that
+    # is then relaxed: products cut short by the Sec must not depend on the untruncated length
+    res = cv_checks.explore(ctx, ctx.n(160, 3000),
+                            dict(base, per_tx=(1, 4), as_frac=0.0, special=['sec'], sec_near_start=1.0,
+                                 coding_only=True, kw={'selenocysteine_termination': True},
+                                 kw_choices={'max_length': [9, 11, 13, 15, 17, 19], 'min_length': [5, 7],
+                                             'miscleavage': [1, 2, 3]},
+                                 variations=['maxlen', 'maxlen']))
+    judge(ctx, res, 'sect-maxlen')
+    s2d = dict(ctx.coverage['worker_stats'])
     # adding a GVF FILE: fusion + circRNA of the donor + small records in three files; the run
     # without the fusion file (without the circRNA file) must be contained in the full run
     bres = cv_checks.explore_backbone(ctx, 'combo', ctx.n(70, 1200), dict(exception=None))
@@ -245,7 +262,7 @@ def run(ctx: common.Ctx):
                           {'seed': r['seed']})
         for what, d in r['violations'][:2]:
             ctx.add_violation(what, d)
-    ctx.coverage['worker_stats'] = {'config-pairs': s1, 'config-pairs-exc': s2, 'special-codons': s2b, 'sec-near-start': s2c,
+    ctx.coverage['worker_stats'] = {'config-pairs': s1, 'config-pairs-exc': s2, 'special-codons': s2b, 'sec-near-start': s2c, 'sect-maxlen': s2d,
                                     'restrictive-switches': s3}
     shutil.rmtree(gen_ref.WORK, ignore_errors=True)
     ctx.assumptions += [
